@@ -1129,6 +1129,16 @@ func (ex *Exec) execLoop(lp *loopParts) {
 		ex.havocKey("$alloc")
 	}
 	for _, k := range keys {
+		if strings.HasPrefix(k, "$cap.") {
+			// a captured call result belongs to the iteration that made the call: at the head of an arbitrary iteration
+			// it is the zero value ("no such call yet")
+			if t, ok := ex.keyType[k]; ok {
+				ex.st.env[k] = ex.zeroValue(t)
+			} else {
+				delete(ex.st.env, k)
+			}
+			continue
+		}
 		if k != "$alloc" {
 			ex.havocKey(k)
 		}
